@@ -123,7 +123,7 @@ CLAIMS = {
                 "accepts a structurally conforming BBAN iff the published rule holds, and otherwise raises' are proved for "
                 "BA ME MK PT RS SI TL (C06_iso97), MR TN (C06_rib), BE (C06_be), PL EE ES NO CZ SK IS (C06_pl .. C06_is), each under "
                 "data obligations on the regenerated spec table (component positions, numeric classes, length, registered class); "
-                "partial: FR MC IT SM FI NL HR HU AL and the German methods (C07) are covered by the spec-oracle stream only. "
+                "partial: FR MC IT SM FI are covered by the spec-oracle stream only (the German methods are C07). "
                 "Found and fixed: returns False on success (6f07eec), BA registered as BT (6931682).",
         "note": COMMON_NOTE + " Spec/NationalPublished.v is a hand transcription of the published rules (no network), cross-validated against the implementation on all 22 countries; Norway's '00' account rule is transcribed from the code.",
         "technique": "Coq proof (structural theorems; per-country equivalences where listed) + extracted published-rule spec as oracle + correspondence",
